@@ -296,7 +296,7 @@ func runC04(c *Ctx) {
 		idx := errorResultIndex(gen)
 		n := 0
 		for _, r := range liveReturns(gen) {
-			for _, lf := range w.Leaves(r.Results[idx], r) {
+			for _, lf := range w.LeavesErr(r.Results[idx], r) {
 				if isNilConst(lf.Val) {
 					continue
 				}
